@@ -36,6 +36,18 @@ pub struct ClusterSys {
     pub max_slot: u64,
     pub max_blk: u8,
     pub max_msgs: usize,
+    /// executed on the fresh world before exploration starts (non-initial start states)
+    pub prefix: Vec<PrefixOp>,
+}
+
+#[derive(Clone, Debug)]
+pub enum PrefixOp {
+    /// block k of the alphabet reaches every real node
+    BlockToAll(usize),
+    /// everything in flight is delivered (FIFO) until nothing is left
+    DeliverAll,
+    /// every real node's armed timer for the window fires once
+    TimersOnce(u64),
 }
 
 pub struct ClusterWorld {
@@ -73,7 +85,7 @@ impl ClusterSys {
             factory.prepare_vote(v);
         }
         let max_slot = alpha.forge.iter().map(|t| t.1).chain(alpha.blocks.iter().map(|b| b.0.slot)).max().unwrap_or(1);
-        Self { name: name.to_string(), epoch, nodes, byz, alpha, factory, max_slot, max_blk: 1, max_msgs: 24 }
+        Self { name: name.to_string(), epoch, nodes, byz, alpha, factory, max_slot, max_blk: 1, max_msgs: 24, prefix: Vec::new() }
     }
 
     fn h(&self) -> usize {
@@ -182,6 +194,23 @@ impl ClusterSys {
         self.settle(w, n);
     }
 
+
+    pub fn init_bare(&self) -> ClusterWorld {
+        let h = self.h();
+        ClusterWorld {
+            cores: self.nodes.iter().map(|v| Core::new(&self.epoch, *v)).collect(),
+            emitted: vec![Vec::new(); h],
+            next: vec![vec![0; h]; h],
+            byz_delivered: vec![vec![false; self.alpha.byz_votes.len()]; h],
+            forged: vec![vec![false; self.alpha.forge.len()]; h],
+            blocks_delivered: vec![vec![false; self.alpha.blocks.len()]; h],
+            invalid_delivered: vec![vec![false; self.alpha.invalid.len()]; h],
+            blocks_known: BTreeMap::new(),
+            out_of_scope: false,
+            msg_cap: self.max_msgs,
+            fins: vec![Vec::new(); h],
+        }
+    }
 
     fn deliver_block(&self, w: &mut ClusterWorld, i: usize, k: usize) {
         w.blocks_delivered[i][k] = true;
@@ -405,20 +434,43 @@ impl Sys for ClusterSys {
     type World = ClusterWorld;
 
     fn init(&self) -> ClusterWorld {
-        let h = self.h();
-        ClusterWorld {
-            cores: self.nodes.iter().map(|v| Core::new(&self.epoch, *v)).collect(),
-            emitted: vec![Vec::new(); h],
-            next: vec![vec![0; h]; h],
-            byz_delivered: vec![vec![false; self.alpha.byz_votes.len()]; h],
-            forged: vec![vec![false; self.alpha.forge.len()]; h],
-            blocks_delivered: vec![vec![false; self.alpha.blocks.len()]; h],
-            invalid_delivered: vec![vec![false; self.alpha.invalid.len()]; h],
-            blocks_known: BTreeMap::new(),
-            out_of_scope: false,
-            msg_cap: self.max_msgs,
-            fins: vec![Vec::new(); h],
+        let mut w = self.init_bare();
+        if !self.prefix.is_empty() {
+            verif_capture_timeouts(true);
+            let h = self.h();
+            for op in &self.prefix {
+                match op {
+                    PrefixOp::BlockToAll(k) => {
+                        for i in 0..h {
+                            self.deliver_block(&mut w, i, *k);
+                        }
+                    }
+                    PrefixOp::DeliverAll => loop {
+                        let mut moved = false;
+                        for i in 0..h {
+                            for j in 0..h {
+                                while w.next[i][j] < w.emitted[j].len() {
+                                    let m = w.emitted[j][w.next[i][j]].clone();
+                                    w.next[i][j] += 1;
+                                    self.feed(&mut w, i, &m);
+                                    moved = true;
+                                }
+                            }
+                        }
+                        if !moved {
+                            break;
+                        }
+                    },
+                    PrefixOp::TimersOnce(win) => {
+                        for i in 0..h {
+                            w.cores[i].fire_timer(*win);
+                            self.collect(&mut w, i);
+                        }
+                    }
+                }
+            }
         }
+        w
     }
 
     fn num_actions(&self) -> usize {
